@@ -5,7 +5,7 @@ from protocol_code_generator.type.enum_type import EnumType
 from protocol_code_generator.type.integer_type import IntegerType
 from protocol_code_generator.util.docstring_utils import generate_docstring
 from protocol_code_generator.util.name_utils import snake_case_to_pascal_case
-from protocol_code_generator.util.number_utils import try_parse_int
+from protocol_code_generator.util.number_utils import is_decimal_integer, try_parse_int
 from protocol_code_generator.util.xml_utils import (
     get_boolean_attribute,
     get_comment,
@@ -213,7 +213,7 @@ class SwitchCodeGenerator:
         case_value = get_required_string_attribute(protocol_case, "value")
 
         if isinstance(field_type, IntegerType):
-            if not case_value.isdigit():
+            if not is_decimal_integer(case_value):
                 raise RuntimeError(f'"{case_value}" is not a valid integer value.')
             return case_value
 
